@@ -132,8 +132,7 @@ def programs():
         s = ALPHA[:n]
         return s[:i - 1] + "😀" + s[i:] + "\n", False
     out.append(("TextSrc/assign_target_wide", tsu + A + "Speichere '😀' in l an der Stelle i.\nSchreibe l auf eine Zeile.\n" + Bm, t_assign_wide))
-    fn = "Die Funktion setze mit dem Parameter r vom Typ Buchstaben Referenz, gibt nichts zurück, macht:\n\tSpeichere 'Q' in r.\nUnd kann so benutzt werden:\n\t\"setze <r>\"\n"
-    out.append(("TextSrc/referenz_arg", HEAD + fn + TEXT_SETUP + A + "setze (l an der Stelle i).\nSchreibe l auf eine Zeile.\n" + Bm, t_assign))
+    # (a character inside a Text cannot be passed as Buchstaben Referenz: the front end rejects that, so there is no such access form)
 
     def t_slice(n, i, j):
         r, err = clamp_slice(ALPHA[:n], i, j)
